@@ -279,3 +279,84 @@ def whileif(a, b):
         x = x + 1
         n = n + 1
     return y
+
+
+def two(p, q):
+    s = p + 1
+    return s, q
+
+
+def seth(v):
+    global H
+    H = v
+    return 0
+
+
+def tuples(a, b):
+    x, y = two(a, b)
+    t = two(b, a)
+    c, d = t
+    r = x + d
+    return r
+
+
+def nonecheck(a, b):
+    v = None
+    w = 1
+    if a > 0:
+        v = b
+    if v is None:
+        r = w
+    else:
+        r = v + 1
+    if b is not None:
+        w = 5
+    return r
+
+
+def whilebreak(a, b):
+    i = 0
+    s = 0
+    while i < 3:
+        if i == a:
+            break
+        if i == b:
+            i = i + 1
+            continue
+        s = s + i
+        i = i + 1
+    return s
+
+
+def condcall(a, b):
+    r = 0
+    if pos(a) > 0:
+        r = inc(b)
+    k = b
+    return inc(r) + k
+
+
+def globwrite(a, b):
+    d = seth(a)
+    x = H + 1
+    e = seth(b)
+    y = readh()
+    return x
+
+
+def listalias(a, b):
+    xs = [a, b]
+    ys = xs
+    ys[0] = 5
+    n = len(xs)
+    r = xs[0] + n
+    return r
+
+
+def chaincmp(a, b):
+    r = 0
+    if 0 <= a < b:
+        r = 1
+    if a == b == 1:
+        r = r + 2
+    return r
